@@ -309,7 +309,7 @@ fn main() {
     let deltas: Vec<i32> = if tier == Tier::Thorough { vec![3600, 1800, 7200, -3600] } else { vec![3600, -3600] };
     let times: Vec<(i32, i32)> = if tier == Tier::Thorough { vec![(7200, 7200), (0, 0), (5400, 10800), (86400, 3600), (10800, 86400)] } else { vec![(7200, 7200), (0, 86400)] };
     // both sides of the epoch, leap and common years, century years of both kinds
-    let probe_years: Vec<i64> = vec![1600, 1900, 1948, 1968, 1969, 1970, 1972, 1999, 2000, 2023, 2024, 2026, 2037, 2100, 9999];
+    let probe_years: Vec<i64> = vec![1600, 1900, 1948, 1968, 1970, 1972, 2000, 2023, 2024, 2026, 2037, 2100, 9999];
     let proviso_years: Vec<i64> = probe_years.iter().cloned().chain([1969, 1970, 1971, MIN_YEAR + 1, MIN_YEAR + 2, MAX_YEAR - 1, MAX_YEAR - 2]).collect();
     // a full 28-year weekday/leap cycle for the footers of the system zones, plus far years
     let sys_years: Vec<i64> = [1600i64, 1904, 1948, 1968, 1969, 1970, 2100, 2400, 9999].into_iter().chain(2023..=2051).collect();
